@@ -1434,6 +1434,23 @@ func (st *Runtime) evalPipelineExpression(node *PipeNode) (value reflect.Value, 
 	return
 }
 
+// convertible reports whether v can be converted to t without panicking: the types of a slice and of an array (or
+// array pointer) are convertible, but the conversion itself panics when the slice is shorter than the array.
+func convertible(v reflect.Value, t reflect.Type) bool {
+	if !v.Type().ConvertibleTo(t) {
+		return false
+	}
+	if v.Kind() == reflect.Slice {
+		if t.Kind() == reflect.Array {
+			return v.Len() >= t.Len()
+		}
+		if t.Kind() == reflect.Ptr && t.Elem().Kind() == reflect.Array {
+			return v.Len() >= t.Elem().Len()
+		}
+	}
+	return true
+}
+
 func (st *Runtime) evaluateArgs(fnType reflect.Type, args CallArgs, pipedArg *reflect.Value) ([]reflect.Value, error) {
 	numArgs := len(args.Exprs)
 	if !args.HasPipeSlot && pipedArg != nil {
@@ -1465,7 +1482,7 @@ func (st *Runtime) evaluateArgs(fnType reflect.Type, args CallArgs, pipedArg *re
 			return nil, fmt.Errorf("piped first argument for %s is not a valid value", fnType)
 		}
 		if !(*pipedArg).Type().AssignableTo(in) {
-			if !(*pipedArg).Type().ConvertibleTo(in) {
+			if !convertible(*pipedArg, in) {
 				return nil, fmt.Errorf("piped first argument for %s has type %s, which can't be converted to %s", fnType, (*pipedArg).Type(), in)
 			}
 			*pipedArg = (*pipedArg).Convert(in)
@@ -1491,7 +1508,7 @@ func (st *Runtime) evaluateArgs(fnType reflect.Type, args CallArgs, pipedArg *re
 			return nil, fmt.Errorf("argument for position %d in %s is not a valid value", slot, fnType)
 		}
 		if !term.Type().AssignableTo(in) {
-			if !term.Type().ConvertibleTo(in) {
+			if !convertible(term, in) {
 				return nil, fmt.Errorf("argument for position %d in %s has type %s, which can't be converted to %s", slot, fnType, term.Type(), in)
 			}
 			term = term.Convert(in)
@@ -1517,7 +1534,7 @@ func (st *Runtime) evaluateArgs(fnType reflect.Type, args CallArgs, pipedArg *re
 				return nil, fmt.Errorf("argument for position %d in %s is not a valid value", slot, fnType)
 			}
 			if !term.Type().AssignableTo(in) {
-				if !term.Type().ConvertibleTo(in) {
+				if !convertible(term, in) {
 					return nil, fmt.Errorf("argument for position %d in %s has type %s, which can't be converted to %s", slot, fnType, term.Type(), in)
 				}
 				term = term.Convert(in)
@@ -1831,7 +1848,7 @@ func resolveIndex(v, index reflect.Value, indexAsStr string) (reflect.Value, err
 	case reflect.Map:
 		// If it's a map, attempt to use the field name as a key.
 		indexVal := indexAsValue()
-		if !indexVal.Type().ConvertibleTo(v.Type().Key()) {
+		if !convertible(indexVal, v.Type().Key()) {
 			return reflect.Value{}, fmt.Errorf("can't use %s (%s) as key for map of type %s", indexAsStr, indexVal.Type(), v.Type())
 		}
 		index = indexVal.Convert(v.Type().Key()) // noop in most cases, but not expensive
